@@ -88,6 +88,45 @@ MUTANTS = [
         *t = if !main && nw > 1 && i == nw - 1 { 0 } else { w } & num_vars_mask(num_vars);
     }
 }"""),
+    ("panic_on_rare_word", {"panicked"}, """pub fn fill_random(num_vars: usize, table: &mut [u64]) {
+    use rand::RngCore;
+    for t in table {
+        let w = rand::thread_rng().next_u64();
+        assert!(w & 0x3ff != 0x155, "unlucky word");
+        *t = w & num_vars_mask(num_vars);
+    }
+}"""),
+    ("spin_on_rare_word", {"hang"}, """pub fn fill_random(num_vars: usize, table: &mut [u64]) {
+    use rand::RngCore;
+    for t in table {
+        let mut w = rand::thread_rng().next_u64();
+        // "rejection sampling" that can never succeed once it is entered
+        while w & 0x3ff == 0x155 {
+            w |= 0x155;
+            std::hint::spin_loop();
+        }
+        *t = w & num_vars_mask(num_vars);
+    }
+}"""),
+    ("relock_global_mutex", {"deadlock", "hang", "panicked"}, """pub fn fill_random(num_vars: usize, table: &mut [u64]) {
+    use rand::{RngCore, SeedableRng};
+    use std::sync::Mutex;
+    static R: Mutex<Option<rand::rngs::StdRng>> = Mutex::new(None);
+    let mut g = R.lock().unwrap();
+    let rng = g.get_or_insert_with(rand::rngs::StdRng::from_entropy);
+    if table.len() > 8 {
+        // "reuse the single-word path for the first word" while still holding the lock
+        let (a, b) = table.split_at_mut(1);
+        fill_random(6, a);
+        for t in b {
+            *t = rng.next_u64() & num_vars_mask(num_vars);
+        }
+        return;
+    }
+    for t in table {
+        *t = rng.next_u64() & num_vars_mask(num_vars);
+    }
+}"""),
     ("ctl_global_mutex_rng", None, """pub fn fill_random(num_vars: usize, table: &mut [u64]) {
     use rand::{RngCore, SeedableRng};
     use std::sync::Mutex;
@@ -164,7 +203,7 @@ def main(argv, seed):
         for name, expect, body in MUTANTS:
             if only and name not in only:
                 continue
-            if fast and name not in ("unchanged", "no_mask", "racy_global_xorshift", "ctl_atomic_cas_loop"):
+            if fast and name not in ("unchanged", "no_mask", "racy_global_xorshift", "spin_on_rare_word", "ctl_atomic_cas_loop"):
                 continue
             open(ops, "w").write(pristine.replace(ORIG, body))
             t0 = time.time()
